@@ -155,10 +155,69 @@ func c01NoKey(k *core.Case, m *abs.Msg) {
 	k.Distinct("nokey|" + abs.Kinds(m))
 }
 
+// c01Session: one SA, two long-lived key objects (one per peer), a whole conversation.
+// The property must hold for every message whatever was exchanged before it on the same SA.
+func c01Session(k *core.Case) {
+	s, _, pre := cell(k.Index % 36)
+	raw := libsa.RandomRaw(k.R, s)
+	ka, err1 := libsa.NewKey(raw) // initiator's object
+	kb, err2 := libsa.NewKey(raw) // responder's object
+	if err1 != nil || err2 != nil {
+		k.Violate("setup", "NewKey failed", fmt.Sprint(err1, err2), nil)
+		return
+	}
+	n := k.R.Pick(4, 8, 16)
+	var hist []string
+	for i := 0; i < n; i++ {
+		var m *abs.Msg
+		switch k.R.Intn(5) {
+		case 0:
+			m = gen.Header(k.R) // empty payload list
+		case 1: // long
+			m = gen.Header(k.R)
+			m.Payloads = []abs.Payload{{Kind: abs.PNonce, Data: gen.DataN(k.R, k.R.Range(600, 3000))}}
+		case 2: // short
+			m = gen.Header(k.R)
+			m.Payloads = []abs.Payload{{Kind: abs.PNotify, Notify: &abs.Notify{Proto: 1, Type: k.R.U16()}}}
+		default:
+			m = gen.Msg(k.R, gen.Opt{Protected: true, MaxPayloads: 4, AllowEmpty: true})
+		}
+		fromInit := k.R.Bool()
+		snd, rcv := ka, kb
+		if !fromInit {
+			snd, rcv = kb, ka
+		}
+		k.Eval(1)
+		wire, err, p := libProtect(m, snd, fromInit)
+		hist = append(hist, fmt.Sprintf("%v:%s", fromInit, abs.Kinds(m)))
+		w := M{"suite": s.Name(), "keys": raw.JSON(), "conversation": hist, "step": i, "msg": msgJSON(m), "sender_initiator": fromInit, "preparsed_header": pre}
+		if err != nil || p != nil {
+			k.Violate("protect-error", "session-protect-error", fmt.Sprint(err, p), w)
+			return
+		}
+		w["wire"] = core.HexClip(wire, 2048)
+		d, err, p := libUnprotect(wire, pre, rcv, !fromInit)
+		if p != nil {
+			k.Violate("panic", "session-unprotect: "+p.Sig(), "panic", panicData(p, w))
+			return
+		}
+		if err != nil {
+			k.Violate("unprotect-error", "session-unprotect-error: "+classifyErr(err), fmt.Sprintf("message %d of a conversation on one SA refused: %s", i, errStr(err)), w)
+			return
+		}
+		if !abs.Equal(m, d) {
+			k.Violate("mismatch", "session-roundtrip-mismatch: "+diffClass(m, d), abs.Diff(m, d), w)
+			return
+		}
+	}
+	k.Count("sessions", 1)
+	k.Distinct(fmt.Sprintf("session|%s|%v|%d", s.Name(), pre, n))
+}
+
 func c01(c *core.Ctx) {
 	c.Info("rule", "case = (suite, sender role, header mode [nil | pre-parsed], rand mode [real|deterministic|all-zero|all-ff], generated domain message whose protected form fits 16 bits); "+
 		"distinct = that tuple with the message reduced to its ordered payload-kind list and wire-size bucket; non-trivial = protected by the library and accepted+compared (or the explicit empty payload list). "+
-		"no-key cases: EncodeEncrypt/DecodeDecrypt with nil key compared with Encode/Decode")
+		"session cases: conversations of 4/8/16 messages of varying size in both directions between two long-lived key objects of one SA; no-key cases: EncodeEncrypt/DecodeDecrypt with nil key compared with Encode/Decode")
 	c.Info("assumptions", "second IKESAKey object built from the same raw keys through StrToType/Init/NewCrypto stands for 'a holder of the same keys' || crypto/rand.Reader is the only random source of the library")
 	cm := corpusMsgs()
 	c.Family("corpus", len(cm)*36, func(k *core.Case) { c01One(k, cm[k.Index/36], k.Index%36, k.Index%4) })
@@ -186,6 +245,8 @@ func c01(c *core.Ctx) {
 		}
 		c01One(k, m, k.Index%36, k.R.Intn(4))
 	})
+	c.Family("sessions", c.N(36*8, 36*2000), c01Session)
+	c.Require("sessions")
 	c.Family("nokey", c.N(1500, 300000), func(k *core.Case) {
 		c01NoKey(k, gen.Msg(k.R, gen.Opt{AllowBig: k.Index%9 == 0, AllowEmpty: true}))
 	})
